@@ -37,12 +37,33 @@ CAPS = programs.CAPS['fs']
 def strategy(tier):
     n = 9 if tier == 'quick' else 14
     allow = {'stale', 'del', 'undo', 'restore', 'reopen', 'pack'}
+    big = st.sampled_from([8100, 8192, 8300, 8300, 70000])
+    fin = ['finish']
+
+    @st.composite
+    def phased(draw):
+        """large revisions that are superseded, a pack that removes them, and large records written afterwards: the
+        positions saved in the indexes from before the pack lie inside the file again - somewhere in the new records"""
+        prog = []
+        for _ in range(draw(st.integers(1, 3))):
+            prog.append(['txn', [0, 0, 0], [['new', draw(big)]], fin])
+        for _ in range(draw(st.integers(1, 3))):
+            prog.append(['txn', [0, 0, 0], [['upd', draw(st.integers(0, 3)), draw(big)]], fin])
+        prog.append(['pack', len(prog), draw(st.sampled_from([0, 1]))])      # (pack time: after the last transaction)
+        for _ in range(draw(st.integers(1, 3))):
+            prog.append(['txn', [0, 0, 0], [draw(st.sampled_from([['new', 70000], ['upd', 0, 70000], ['upd', 1, 70000], ['new', 8300]]))], fin])
+        if draw(st.booleans()):
+            prog.append(['reopen', draw(st.booleans())])
+        return prog
     return st.fixed_dictionaries({
-        'prog': programs.program_strategy('fs', n, allow),
+        'prog': st.integers(0, 99).flatmap(lambda w: phased() if w < 42 else programs.program_strategy('fs', n, allow)),
         'cuts': st.lists(st.integers(1, 400), min_size=1, max_size=3),
         'idx_cuts': st.lists(st.integers(0, 100000), min_size=2, max_size=6),
         'junk': st.integers(0, 255),
         'all_idx_cuts': st.booleans() if tier == 'thorough' else st.just(False),
+        # the padding of the records reads like transaction and data record headers (a stale index position that lands
+        # in it is followed by "structure", not by noise)
+        'sled': st.sampled_from([True, True, False]),
     })
 
 
@@ -71,6 +92,20 @@ def open_and_observe(d, oids, tids, **kw):
 
 
 def execute(case):
+    from vlib import records
+    records.PAD_PATTERN = None
+    if case.get('sled'):
+        # (rotated by a generated amount: every alignment of the pattern relative to the saved positions occurs)
+        pat = records.header_like_pattern()
+        rot = case['junk'] % len(pat)
+        records.PAD_PATTERN = pat[rot:] + pat[:rot]
+    try:
+        return _execute(case)
+    finally:
+        records.PAD_PATTERN = None
+
+
+def _execute(case):
     out = Outcome()
     out.evals = 0
     clock.install()
@@ -154,8 +189,9 @@ def execute(case):
         def compare(files, what, nontrivial, coincidence=False):
             dd = fresh(data, files)
             out.evals += 1
-            # known finding (DESIGN 10.2): an index saved BEFORE a pack whose end position equals the size the packed
-            # file has grown back to passes the sanity test when the last transactions line up; its own signature
+            # known finding (DESIGN 10.2): an index saved BEFORE a pack whose end position is again the end of a
+            # transaction in the packed and regrown file (in particular: equals its size) passes the sanity test when the
+            # transactions before that position line up; its own signature
             try:
                 got = open_and_observe(dd, oids, tids)
             except Exception as e:
@@ -188,7 +224,7 @@ def execute(case):
                 continue            # index from the future of a crash image: outside the crash model
             stale = size < len(data) or pk < img_packs
             compare({'.index': b}, 'index saved after step %d (data size then %d, packs then %d)' % (
-                step, size, pk), stale, coincidence=(pk < img_packs and size == len(data)))
+                step, size, pk), stale, coincidence=(pk < img_packs and size in txn_boundaries(data)))
             if stale:
                 out.label('stale-index')
             if pk < img_packs:
@@ -291,6 +327,28 @@ def execute(case):
         if out.failures:
             return done(out, nt)
     return done(out, nt)
+
+
+_TB = [None, None]
+
+
+def txn_boundaries(data):
+    """end positions of the transactions of a data file image (independent walk over the length fields).  An index saved
+    before a pack whose saved end position coincides with one of them in the packed (and regrown) file is the situation
+    of the recorded finding: the sanity test looks at the transactions before that position only"""
+    import struct
+    if _TB[0] is data:
+        return _TB[1]
+    out, pos = set(), 4
+    while pos + 23 <= len(data):
+        tl = struct.unpack('>Q', data[pos + 8:pos + 16])[0]
+        end = pos + tl + 8
+        if tl < 23 or end > len(data) or data[end - 8:end] != data[pos + 8:pos + 16]:
+            break
+        out.add(end)
+        pos = end
+    _TB[0], _TB[1] = data, out
+    return out
 
 
 def pickle_boundaries(b):
